@@ -818,6 +818,11 @@ func (e *Exec) sxCall(env *SpecEnv, n *ast.CallExpr) SVal {
 		b := e.mat(env, e.sx(env, n.Args[0]))
 		i := e.mat(env, e.sx(env, n.Args[1]))
 		return SVal{T: sel(sel(e.hget(env.heap(), "GB_bufdata"), b), fmt.Sprintf("(+ %s %s)", sel(e.hget(env.heap(), "GB_bufrd"), b), i)), Typ: types.Typ[types.Byte]}
+	case "prefix":
+		// prefix(arrayValue, n): the first n elements of an array value as a byte sequence
+		v := e.sx(env, n.Args[0])
+		k := e.mat(env, e.sx(env, n.Args[1]))
+		return SVal{T: app(e.seqFun(), e.mat(env, v), "0", k), Typ: v.Typ}
 	case "arrayOf":
 		v := e.sx(env, n.Args[0])
 		if _, ok := types.Unalias(v.Typ).Underlying().(*types.Slice); ok {
